@@ -322,7 +322,9 @@ func c03FileRec(s c03Step) string {
 	case "DS":
 		return fmt.Sprintf("reuse %d app %d %s", s.f, s.f, hx.Enc(s.data))
 	case "MV":
-		return fmt.Sprintf("back %d", s.f)
+		// one record line written BEFORE the move: the file has content, the watcher can add the job and a
+		// worker can read it before the driver goroutine runs again (seen under load)
+		return fmt.Sprintf("back %d disc %d", s.f, s.f)
 	}
 	return ""
 }
@@ -1265,9 +1267,6 @@ func c03ChildMain(dir string, run int) {
 			}
 			if s.op == "R" || s.op == "RO" {
 				h.rec(false, nil, "disc %d", s.g)
-			}
-			if s.op == "MV" {
-				h.rec(false, nil, "disc %d", s.f)
 			}
 		case "W":
 			if !h.waitIdle(false) {
